@@ -141,6 +141,15 @@ class Case:
         if gridding == "input":
             hc = [np.ones(a.size)*a.sum()/a.size for a in self.grid.h]
             kw["gridding_opts"] = emg3d.TensorMesh(hc, self.grid.origin)
+        elif gridding == "both":
+            # automatic grids per source and frequency (small ones: equal
+            # cell counts, widths depending on the frequency)
+            kw["gridding_opts"] = {
+                'center': (0.0, 0.0, 0.0),
+                'domain': ([-320, 320], [-320, 320], [-320, 320]),
+                'min_width_limits': ([60, 120],)*3, 'stretching': [1.0, 1.8],
+                'max_buffer': 1200, 'cell_numbers': [8, 16, 24, 32],
+                'center_on_edge': False}
         return emg3d.Simulation(
             self.survey() if survey is None else survey, self.model(m),
             max_workers=1, gridding=gridding,
